@@ -522,6 +522,29 @@ pub fn run_c12(ctx: &mut Ctx) {
             }
         }
     }
+    // writer-level faults (poll-level `a.*` ops): the transport fails a write (error or Ok(0)) at any byte of a record; whatever the
+    // handler then does with THAT writer short of writing or flushing again — close() it, clone it, drop it — must not panic
+    for ci in 0..ctx.n(60, 600) {
+        if or.saturated() { break; }
+        let nparts = rng.usize_below(4);
+        let mut wr: Vec<String> = (0..nparts).map(|_| match rng.below(4) { 0 => "P".to_string(), _ => (1 + rng.below(12)).to_string() }).collect();
+        wr.push(if rng.chance(1, 2) { "E".into() } else { "Z".into() }); wr.push("A".into()); wr.push("A".into());
+        log.case(&format!("c12w-{ci}"));
+        let id = 1 + rng.below(60000);
+        let o = ex(&mut log, &mut im, &format!("a.new 256 5 {id} 1 1 in=- end=pend rd=P wr={} fl=- la=0", wr.join(",")));
+        if !o.starts_with("ok") { or.fail(format!("setup failed: {o}"), log.replay_block(), "C12:setup".into()); continue; }
+        let t = if rng.chance(1, 2) { 6 } else { 7 };
+        ex(&mut log, &mut im, &format!("a.open {t}"));
+        let len = *rng.pick(&[1usize, 5, 8, 9, 40]); let data = rng.bytes(len);
+        let mut failed = false;
+        for _ in 0..20 { let o = ex(&mut log, &mut im, &format!("a.wpoll 0 {}", hexd(&data))); if o.starts_with("err") { failed = true; break; } if o.starts_with("panic") { or.fail("poll_write panicked".into(), log.replay_block(), "C12:writer-panic".into()); break; } if o.starts_with("ready") { break; } }
+        if failed {
+            let after: &[&str] = match rng.below(3) { 0 => &["a.cpoll 0"], 1 => &["a.clone 0", "a.cpoll 1", "a.cpoll 0"], _ => &["a.cpoll 0", "a.drop 0"] };
+            for op in after { let o = ex(&mut log, &mut im, op); if o.starts_with("panic") { or.fail(format!("after a failed write of the transport, `{op}` panicked"), log.replay_block(), "C12:panic-after-write-fault".into()); } }
+            or.count("writer_level_write_faults");
+        }
+        or.eval((ci, "w"), true);
+    }
     for ci in 0..ctx.n(25, 120) {
         if or.saturated() { or.count("stopped_early_saturated"); break; }
         let k = 1 + rng.usize_below(2);
